@@ -112,6 +112,10 @@ def random_cover_cases(rng, algs, count, Bs=(4, 6, 7, 9, 12, 15, 20, 31, 100), n
         for _ in range(count):
             B = rng.choice(Bs)
             n = rng.randint(0, nmax)
+            if rng.random() < 0.06:
+                B, vals = gen.big_cover_case(rng, nmax=max(2, nmax))
+                res.append({"alg": alg, "vals": vals, "p": {"B": B}})
+                continue
             res.append({"alg": alg, "vals": gen.rand_cover_vals(rng, n, B), "p": {"B": B}})
     return res
 
